@@ -1,6 +1,7 @@
 package main
 
 import (
+	"go/constant"
 	"reflect"
 	"fmt"
 	"go/token"
@@ -179,12 +180,7 @@ func c05Gate(w *World, r *Report, exp *types.Named) {
 				}
 				all := true
 				for _, hret := range returnsOf(H) {
-					mayNil := false
-					for _, s := range w.Sources(hret.Results[len(hret.Results)-1], hret.Block()) {
-						if s.Kind == "nil" {
-							mayNil = true
-						}
-					}
+					mayNil := mayBeNilAt(w, H, hret.Results[len(hret.Results)-1], hret.Block())
 					if mayNil && !onlyVia(H, hret.Block(), mk(H, H.Params[j])) {
 						all = false
 					}
@@ -198,20 +194,15 @@ func c05Gate(w *World, r *Report, exp *types.Named) {
 		}
 		for _, ret := range returnsOf(fn) {
 			rk := retKey(w, fn, ret)
-			mayNil := false
-			for _, s := range w.Sources(ret.Results[len(ret.Results)-1], ret.Block()) {
-				if s.Kind == "nil" {
-					mayNil = true
-				}
-			}
-			if !mayNil {
+			if !mayBeNilAt(w, fn, ret.Results[len(ret.Results)-1], ret.Block()) {
 				continue
 			}
-			ok1 := onlyVia(fn, ret.Block(), nilOf(isResult(K, errIdx(K))))
+			errV := ret.Results[len(ret.Results)-1]
+			ok1 := successOnlyVia(w, fn, errV, ret.Block(), nilOf(isResult(K, errIdx(K))))
 			r.Ob(ri, key+"|"+rk+"|signature-verified", ret.Pos(), ok1, "success is reachable without passing the == nil edge of token.Claims(key, ...) (the signature verification)")
 			ok2 := gated(ret.Block(), algAllowed)
 			r.Ob(ri, key+"|"+rk+"|key-algorithm-allowed", ret.Pos(), ok2, "success is reachable without the key's algorithm having been asserted against the allowed algorithms")
-			ok3 := validate != nil && onlyVia(fn, ret.Block(), nilOf(isResult(validate, 0)))
+			ok3 := validate != nil && successOnlyVia(w, fn, errV, ret.Block(), nilOf(isResult(validate, 0)))
 			r.Ob(ri, key+"|"+rk+"|claims-validated", ret.Pos(), ok3, "success is reachable without the verified claims having been validated against the assertions")
 			// algorithm agreement: header alg empty or equal to the key's
 			ok4 := gated(ret.Block(), algEqual)
@@ -224,6 +215,14 @@ func c05Gate(w *World, r *Report, exp *types.Named) {
 				}
 			}
 			r.Ob(ri, key+"|"+rk+"|payload-is-verified-claims", ret.Pos(), ok5, "the returned payload does not originate from the claims filled by the verifying Claims call")
+		}
+		// payload and error are exclusive: whoever decides by the payload (a caller trying one key after
+		// the other) must not get a payload together with a failure
+		for _, ret := range returnsOf(fn) {
+			if len(ret.Results) < 2 {
+				continue
+			}
+			r.Ob(ri, key+"|"+retKey(w, fn, ret)+"|no-payload-with-error", ret.Pos(), !valueWithError(w, fn, ret), "a payload is returned together with a non-nil error: a caller that tells success by the payload accepts a token whose verification or validation failed")
 		}
 		// the verification key is the parameter that was checked
 		_, isParam := keyArg.(*ssa.Parameter)
@@ -669,6 +668,25 @@ func c05Tables(w *World, r *Report) {
 		}
 	}
 	r.Ob(ri, "default-subset-of-parse-set", sup.Pos(), sub, fmt.Sprintf("defaults %v are not a subset of the parser's set %v (or the parser accepts 'none')", d, s))
+	// the parser accepts every signature algorithm the library knows: the policy (allowed algorithms)
+	// is applied after parsing, where a violation is an authentication failure. An algorithm the parser
+	// does not know makes a well-formed, signed token "unparsable", which counts as "no credentials
+	// presented" and lets the next authenticator (anonymous) take over.
+	if sl, isSl := sup.Signature.Results().At(0).Type().Underlying().(*types.Slice); isSl {
+		if nt, isN := sl.Elem().(*types.Named); isN && nt.Obj().Pkg() != nil {
+			var missing []string
+			sc := nt.Obj().Pkg().Scope()
+			for _, name := range sc.Names() {
+				if k, isK := sc.Lookup(name).(*types.Const); isK && types.Identical(k.Type(), nt) && k.Val().Kind() == constant.String {
+					if v := constant.StringVal(k.Val()); v != "" && !strings.EqualFold(v, "none") && !set[v] {
+						missing = append(missing, v)
+					}
+				}
+			}
+			sort.Strings(missing)
+			r.Ob(ri, "parse-set-covers-library", sup.Pos(), len(missing) == 0, "the parser's algorithm set lacks "+strings.Join(missing, ", ")+": a token signed with one of them cannot be parsed, is treated as missing credentials and falls through to the next authenticator instead of being rejected")
+		}
+	}
 	// the defaults are installed when none are configured
 	sort.Slice(ctors, func(i, j int) bool { return ctors[i].String() < ctors[j].String() })
 	for _, ctor := range ctors {
@@ -859,4 +877,50 @@ func c05KeyValidation(w *World, r *Report) {
 	if n == 0 {
 		r.Undecided(ri, "no JWK validation call found")
 	}
+}
+
+
+// valueWithError: the return can yield a non-nil first result together with a non-nil error.
+// Both results delegated from one call are not judged (the callee is).
+func valueWithError(w *World, fn *ssa.Function, ret *ssa.Return) bool {
+	P, E := ret.Results[0], ret.Results[len(ret.Results)-1]
+	if pc, _ := resultOfCall(P); pc != nil {
+		if ec, _ := resultOfCall(E); ec == pc {
+			if _, isEx := P.(*ssa.Extract); isEx {
+				return false
+			}
+		}
+	}
+	mayNonNil := func(s Src) bool {
+		switch s.Kind {
+		case "nil":
+			return false
+		case "nonnil":
+			return true
+		}
+		sv := s.V
+		// entering only where it was found nil
+		if srcOnlyVia(fn, s, func(f Fact) bool { return f.Kind == FNil && (f.V == sv || sameValue(f.V, sv)) }) {
+			return false
+		}
+		return true
+	}
+	// pairwise per entering edge: a payload and an error that enter the return through the same
+	// Phi edge (or one of them not through a Phi at all) come together
+	ps, es := w.Sources(P, ret.Block()), w.Sources(E, ret.Block())
+	for _, sp := range ps {
+		if !mayNonNil(sp) {
+			continue
+		}
+		for _, se := range es {
+			if !mayNonNil(se) {
+				continue
+			}
+			if sp.To != nil && se.To != nil && sp.To == se.To && sp.At != se.At {
+				continue // different edges of the same merge
+			}
+			return true
+		}
+	}
+	return false
 }
